@@ -54,7 +54,10 @@ def pretok_phase(dic, streams):
     rounds = 40
 
     def work(tid):
-        start.wait()
+        try:
+            start.wait(timeout=60)
+        except threading.BrokenBarrierError:
+            pass
         for r in range(rounds):
             for k in range(len(texts)):
                 i = (k + tid + r) % len(texts)
@@ -91,17 +94,32 @@ def main():
     got = [None] * len(streams)
     barrier = threading.Barrier(len(streams))
 
+    errors = [None] * len(streams)
+
     def work(i):
-        toks = [dic.create(m) for m in modes]
-        out = toks[0].tokenize("")
-        barrier.wait()
+        # a worker that raises must neither leave the others waiting at the barrier nor go unnoticed
+        toks = out = None
+        try:
+            toks = [dic.create(m) for m in modes]
+            out = toks[0].tokenize("")
+        except BaseException as e:
+            errors[i] = "setting up its tokenizers raised %s: %s" % (type(e).__name__, str(e)[:120])
+        try:
+            barrier.wait(timeout=60)
+        except threading.BrokenBarrierError:
+            pass
+        if toks is None or out is None:
+            return
         r = []
         for k, t in enumerate(streams[i]):
             tk = toks[(i + k) % 3]
-            if k % 2:
-                r.append(obs(tk.tokenize(t, out=out)))
-            else:
-                r.append(obs(tk.tokenize(t)))
+            try:
+                if k % 2:
+                    r.append(obs(tk.tokenize(t, out=out)))
+                else:
+                    r.append(obs(tk.tokenize(t)))
+            except BaseException as e:
+                r.append("raised %s: %s" % (type(e).__name__, str(e)[:120]))
         got[i] = r
 
     ths = [threading.Thread(target=work, args=(i,)) for i in range(len(streams))]
@@ -114,7 +132,7 @@ def main():
     for i in range(len(streams)):
         if got[i] is None:
             mism += len(streams[i])
-            example = example or "thread %d died" % i
+            example = example or "thread %d %s" % (i, errors[i] or "died")
             continue
         for k in range(len(streams[i])):
             if got[i][k] != expected[i][k]:
